@@ -169,6 +169,13 @@ Proof.
   apply new_table_ok; cbn; auto.
 Qed.
 
+(** The two hypotheses have an executable form, sound by this theorem and evaluated on the
+    source state of every case of the world dump/load correspondence (so a reached state that
+    violated them would be reported there). *)
+Theorem C17_world_hypotheses_checkable : forall s,
+  alive_okb s = true -> alive_ok s /\ NoDup (alive_ids s).
+Proof. exact alive_okb_sound. Qed.
+
 Theorem C17_world_load_alive : forall s t t' h,
   has_reserved (w_pool s) -> w_load_entities (w_dump_entities s) t = Some t' ->
   alive t' h = alive s h.
@@ -218,5 +225,5 @@ Example C17_example :
 Proof. vm_compute. repeat split; reflexivity. Qed.
 
 (** One traversal of the dependency graph for all theorems of this file. *)
-Definition C17_all := (C17_bin_roundtrip, C17_bin_shape, C17_bin_reject, C17_bin_bijective, C17_bin_append, C17_json_roundtrip, C17_scripts_reserved, C17_load_fresh_or_reset, C17_load_dump_alive, C17_load_dump_future, C17_load_rejected_iff, C17_world_load_rejected, C17_world_load_succeeds, C17_world_load_result, C17_world_load_index, C17_world_load_rows, C17_new_world_table_ok, C17_world_load_alive, C17_world_load_future).
+Definition C17_all := (C17_bin_roundtrip, C17_bin_shape, C17_bin_reject, C17_bin_bijective, C17_bin_append, C17_json_roundtrip, C17_scripts_reserved, C17_load_fresh_or_reset, C17_load_dump_alive, C17_load_dump_future, C17_load_rejected_iff, C17_world_load_rejected, C17_world_load_succeeds, C17_world_load_result, C17_world_load_index, C17_world_load_rows, C17_new_world_table_ok, C17_world_hypotheses_checkable, C17_world_load_alive, C17_world_load_future).
 Print Assumptions C17_all.
